@@ -31,6 +31,8 @@ TRUSTED = [
     "harness/props/C20.py: executor of the operation language on the real classes, canonical dump "
     "(values as exact rationals, identity classes via `is`, memory classes via np.shares_memory)",
     "numpy record semantics (a np.record taken from a recarray is a view of its row)",
+    "state between calls: the reference is the state-free model (Coq) and, for the summary queries, a fresh emulsion of "
+    "equal droplets built by the harness; query results kept by the caller are compared bit for bit (_freeze)",
     "Python built-in list semantics for keys: a negative index i denotes position len+i, a slice selects "
     "range(*slice.indices(len)) -- the harness computes these with Python itself and hands the model positions",
 ]
@@ -53,7 +55,8 @@ RULE = ("operation sequences over the 42-operation language of Model.Heap (44 ha
         "after a fixed 9-operation prefix (all sequences up to the tier's length), exhaustive over the extended "
         "33-letter alphabet (constructor, clones, general slices, self-extension) up to length 2 plus sampled length-3 sequences, the "
         "layout matrix (every ordered pair of 13 droplet layouts through every insertion path), the slice matrix (448 "
-        "general slice keys on four-member collections of the three types), plus random "
+        "general slice keys on four-member collections of the three types), twin histories (two independent collections "
+        "of each type and of two layouts used alternately, no-argument constructors twice, one-shot iterables), plus random "
         "sequences of length <= 40 over all five droplet classes; distinct = distinct operation sequences; "
         "non-trivial = the sequence contains at least one operation that succeeds and changes a collection")
 
@@ -237,7 +240,7 @@ class World:
                 kw["force_consistency"] = True
             e.append(d, **kw)
         elif n == "Extend":
-            _, c, idx, cp, fc = op
+            _, c, idx, cp, fc = op[:5]
             ds = [H[i] for i in idx]
             keep = list(ds)
             e = E[c]
@@ -247,7 +250,7 @@ class World:
             if fc:
                 kw["force_consistency"] = True
             try:
-                e.extend(ds, **kw)
+                e.extend(_as_iterable(ds, op[5] if len(op) > 5 else "list"), **kw)
             finally:
                 _same_list(ds, keep)
         elif n == "ExtendSelf":
@@ -291,10 +294,7 @@ class World:
                     raise RuntimeError("Emulsion.empty takes no droplets")
                 E.append(Emulsion.empty(H[dt]))
                 return None
-            if itkind == "tuple":
-                ds = tuple(ds)
-            elif itkind == "gen":
-                ds = (d for d in list(ds))
+            ds = _as_iterable(ds, itkind)
             kw = {}
             if dt is not None:
                 d0 = H[dt]
@@ -391,7 +391,13 @@ class World:
         elif n == "TcNew":
             ems = [E[c] for c in op[1]]
             keep = list(ems)
-            tc = EmulsionTimeCourse(ems, None if op[2] is None else [_num(t) for t in op[2]])
+            it = op[3] if len(op) > 3 else "list"
+            if it == "noargs":          # every argument at its default (called twice: no state shared via defaults)
+                if op[1] or op[2] is not None:
+                    raise RuntimeError("noargs takes no arguments")
+                tc = EmulsionTimeCourse()
+            else:
+                tc = EmulsionTimeCourse(_as_iterable(ems, it), None if op[2] is None else [_num(t) for t in op[2]])
             _same_list(ems, keep)
             T.append(tc)
             E.extend(tc.emulsions)
@@ -432,7 +438,13 @@ class World:
         elif n == "TrNew":
             ds = [H[i] for i in op[1]]
             keep = list(ds)
-            K.append(DropletTrack(ds, None if op[2] is None else [_num(t) for t in op[2]]))
+            it = op[3] if len(op) > 3 else "list"
+            if it == "noargs":
+                if op[1] or op[2] is not None:
+                    raise RuntimeError("noargs takes no arguments")
+                K.append(DropletTrack())
+            else:
+                K.append(DropletTrack(_as_iterable(ds, it), None if op[2] is None else [_num(t) for t in op[2]]))
             _same_list(ds, keep)
         elif n == "TrAppend":
             _, k, i, tm = op
@@ -552,6 +564,35 @@ class World:
 class _Completed(Exception):
     def __init__(self, op, kind):
         self.op, self.kind = op, kind
+
+
+class OneShot:
+    """an iterator that can be traversed exactly once (what a generator, a file reader or map() is): a consumer that
+    peeks, iterates twice or stops early loses or repeats elements, which shows in the contents"""
+
+    def __init__(self, items):
+        self._items, self._pos = list(items), 0
+
+    def __iter__(self):
+        return self
+
+    def __next__(self):
+        if self._pos >= len(self._items):
+            raise StopIteration
+        self._pos += 1
+        return self._items[self._pos - 1]
+
+
+def _as_iterable(lst, kind):
+    if kind == "tuple":
+        return tuple(lst)
+    if kind == "gen":
+        return (x for x in list(lst))
+    if kind == "oneshot":
+        return OneShot(lst)
+    if kind == "map":
+        return map(lambda x: x, list(lst))
+    return lst
 
 
 class _Runaway(Exception):
@@ -994,6 +1035,33 @@ LAYOUT_CORE = [("P2m2", "P2m4"), ("P2m4", "P2m2"), ("P2m2", "P2m0"), ("P3m3", "P
                ("D2", "S2"), ("S2", "S2"), ("P3m3", "A3m3"), ("D2", "P2m0")]
 
 
+def twin_case(a, b, rng):
+    """Two independent collections of EACH type (emulsions, time courses, tracks, track lists), one per layout, used
+    alternately: class-level or module-level state (a dtype cache keyed on the field names, a class attribute
+    instead of an instance attribute, a mutable default) would couple them.  Layout a always first, then b."""
+    va, vb = dict(LAYOUTS)[a], dict(LAYOUTS)[b]
+    it = rng.choice(ITKINDS)
+    how = rng.choice(HOWS)
+    dim_a = len(va[1])
+    return [("New", va), ("New", vb),
+            ("EmCtor", (), 0, "empty", "list", False, False), ("EmCtor", (), 1, rng.choice(DTKINDS[:5]), "list", True, False),
+            ("Append", 0, 0, True, True), ("Append", 1, 1, True, True),          # each accepts its own layout
+            ("Append", 0, 1, True, True), ("Append", 1, 0, True, True),          # ... and judges the other one by ITS dtype
+            ("Extend", 0, (0, 0), True, True, it), ("Extend", 1, (1, 1), True, True, it),
+            ("EmNew",), ("EmNew",), ("Append", 2, 1, True, False), ("Append", 3, 0, True, False),   # defaults twice
+            ("Append", 2, 0, True, True), ("Append", 3, 1, True, True),
+            ("TcNew", (), None, "noargs"), ("TcNew", (), None, "noargs"),
+            ("TcAppend", 0, 0, None, True), ("TcAppend", 1, 1, 2.5, True), ("TcAppend", 0, 1, None, True),
+            ("TcAppend", 1, 0, None, True),
+            ("TrNew", (), None, "noargs"), ("TrNew", (), None, "noargs"),
+            ("TrAppend", 0, 0, None), ("TrAppend", 1, 1, 4.0), ("TrAppend", 0, 0, None), ("TrAppend", 1, 1, None),
+            ("TrAppend", 0, 1, None), ("TrAppend", 1, 0, None),                  # other dimension -> ValueError, no change
+            ("Link", 0), ("Link", 1), ("WriteA", 0, 0, dim_a, 3.0), ("EmClone", 0, how), ("EmClone", 1, how),
+            ("SetM", 0, 0, dim_a, 2.0), ("Copy", 1, -1), ("Copy", 0, -1),
+            ("TlNew", (0, 1)), ("TlNew", (1,)), ("TlRemoveShort", 0, 0.5), ("TcClear", 0), ("TcAppend", 0, 1, None, True),
+            ("TcClear", 1), ("TcAppend", 1, 0, None, True), ("TcAppend", 0, 0, 9.5, True), ("TcClear", 0)]
+
+
 def layout_case(a, b, path, cp, fc, rng):
     """[New a, New b] + one way of building an emulsion of layout a and adding a droplet of layout b"""
     va, vb = dict(LAYOUTS)[a], dict(LAYOUTS)[b]
@@ -1086,7 +1154,7 @@ WEIGHTS = {"New": 5, "View": 1, "SetH": 4, "EmNew": 2, "Append": 8, "Extend": 3,
            "EmCopyCtor": 2, "ExtendSelf": 3}
 SELF_HOWS = ["self", "self", "alias", "list", "tuple", "slice"]
 DTKINDS = ["droplet", "dtype", "plain", "array", "record", "empty"]
-ITKINDS = ["list", "tuple", "gen"]
+ITKINDS = ["list", "tuple", "gen", "oneshot", "map"]
 HOWS = ["copy", "deepcopy", "pickle", "pickle2"]
 MAXMEM = 7      # emulsions / tracks are kept small so that dumps stay small
 MAXTAB = 14
@@ -1175,7 +1243,8 @@ def _random_op_once(rng, w, classes, default_only, names, idx, flat_index):
             if c < len(E) and len(E[c]) >= MAXMEM - 2:
                 return None
             cp = True if default_only else rng.random() < 0.75
-            return ("Extend", c, tuple(idx(H) for _ in range(rng.randrange(0, 4))), cp, rng.random() < 0.35)
+            return ("Extend", c, tuple(idx(H) for _ in range(rng.randrange(0, 4))), cp, rng.random() < 0.35,
+                    rng.choice(ITKINDS))
         if n == "Get":
             if len(H) >= MAXTAB:
                 return None
@@ -1278,7 +1347,9 @@ def _random_op_once(rng, w, classes, default_only, names, idx, flat_index):
                 ts = tuple(rtime(rng) for _ in cs)
             else:
                 ts = tuple(rtime(rng) for _ in range(len(cs) + 1))   # wrong length
-            return ("TcNew", cs, ts)
+            if rng.random() < 0.15:
+                return ("TcNew", (), None, "noargs")
+            return ("TcNew", cs, ts, rng.choice(["list", "list", "gen", "oneshot", "tuple"]))
         if n == "TcAppend":
             if len(E) >= MAXTAB:
                 return None
@@ -1315,7 +1386,9 @@ def _random_op_once(rng, w, classes, default_only, names, idx, flat_index):
                 ts = tuple(rtime(rng) for _ in hs)
             else:
                 ts = tuple(rtime(rng) for _ in range(len(hs) + 1))
-            return ("TrNew", hs, ts)
+            if rng.random() < 0.15:
+                return ("TrNew", (), None, "noargs")
+            return ("TrNew", hs, ts, rng.choice(["list", "list", "gen", "oneshot", "tuple"]))
         if n == "TrAppend":
             k = idx(K)
             if k < len(K) and len(K[k].droplets) >= MAXMEM:
@@ -1609,7 +1682,7 @@ class RefModel:
             E[c]
             self._append(c, v, fc)
         elif n == "Extend":
-            _, c, idx, cp, fc = op
+            _, c, idx, cp, fc = op[:5]
             vs = [H[i] for i in idx]
             E[c]
             for v in vs:                      # a rejected droplet stops the loop, earlier ones stay
@@ -1828,15 +1901,118 @@ def _try(f):
         return ("err", type(ex).__name__)
 
 
-def check_queries(w, rng):
+def _freeze(x):
+    """bit-exact, hashable image of a query result (arrays, dicts, numbers, Cuboid, None)"""
+    if isinstance(x, np.ndarray):
+        if x.dtype == object:
+            return ("objarray", x.shape, tuple(_freeze(v) for v in x.ravel()))
+        return ("array", str(x.dtype), x.shape, x.tobytes())
+    if isinstance(x, np.void):
+        return ("record", str(x.dtype), x.tobytes())
+    if isinstance(x, dict):
+        return ("dict", tuple(sorted((k, _freeze(v)) for k, v in x.items())))
+    if isinstance(x, (list, tuple)):
+        return ("seq", tuple(_freeze(v) for v in x))
+    if isinstance(x, (float, np.floating)):
+        return ("float", "nan" if math.isnan(float(x)) else float(x).hex())
+    if isinstance(x, (int, np.integer)):
+        return ("int", int(x))
+    if x is None:
+        return ("none",)
+    if hasattr(x, "pos") and hasattr(x, "size"):
+        return ("cuboid", _freeze(np.asarray(x.pos)), _freeze(np.asarray(x.size)))
+    return ("repr", repr(x))
+
+
+def _spoil(x):
+    """change a query result in place (the caller owns it)"""
+    if isinstance(x, np.ndarray):
+        if x.dtype.names:
+            x["radius"] += 1.0
+        elif x.dtype == object:
+            x[...] = None          # an array of records of different layouts: replace the entries
+        elif x.size:
+            x += 1.0
+    elif isinstance(x, dict):
+        for k in list(x):
+            x[k] = -7
+    elif hasattr(x, "pos") and hasattr(x, "size"):
+        x.pos += 1.0
+
+
+ORACLE_COUNTS = {}       # evidence of the oracle's state-between-calls examinations (flushed into ctx.hist by check)
+
+
+def _ocount(key):
+    ORACLE_COUNTS[key] = ORACLE_COUNTS.get(key, 0) + 1
+
+
+KEPT_QUERIES = {
+    "E": [("data", lambda e: e.data), ("get_size_statistics", lambda e: e.get_size_statistics()),
+          ("bbox", lambda e: e.bbox), ("total_droplet_volume", lambda e: e.total_droplet_volume),
+          ("interface_width", lambda e: e.interface_width)],
+    "K": [("get_trajectory", lambda k: k.get_trajectory()), ("get_radii", lambda k: k.get_radii()),
+          ("data", lambda k: k.data), ("duration", lambda k: k.duration)],
+}
+
+
+def keep_result(w, rng):
+    """Call one summary query TWICE on a random collection: both results bit-identical, no shared buffer (spoiling
+    the second leaves the first and the collection unchanged).  Returns (failure or None, kept entry or None); the
+    kept entry (description, live result, frozen image) is re-examined after every later operation: results must
+    not change retroactively (get_linked_data, the documented view, is not among them)."""
+    kinds = [k for k in ("E", "K") if getattr(w, k)]
+    if not kinds:
+        return None, None
+    kind = rng.choice(kinds)
+    ci = rng.randrange(len(getattr(w, kind)))
+    coll = getattr(w, kind)[ci]
+    members = list(coll) if kind == "E" else list(coll.droplets)
+    if any(type(d).__name__ == "PerturbedDroplet3D" for d in members):
+        return None, None                 # numerical volume integration: too slow to call repeatedly
+    name, fn = rng.choice(KEPT_QUERIES[kind])
+    what = f"{kind}[{ci}].{name}"
+    before = [value_of(d) for d in members]
+    r1, r2 = _try(lambda: fn(coll)), _try(lambda: fn(coll))
+    if r1[0] != r2[0] or (r1[0] == "err" and r1[1] != r2[1]):
+        return f"{what} called twice: {r1[0]} {r1[1] if r1[0] == 'err' else ''} then {r2[0]} {r2[1] if r2[0] == 'err' else ''}", None
+    if r1[0] == "err":
+        return None, None
+    f1 = _freeze(r1[1])
+    if _freeze(r2[1]) != f1:
+        return f"{what} called twice on an unchanged collection gives two different results", None
+    if isinstance(r1[1], np.ndarray) and r1[1].size and np.shares_memory(r1[1], r2[1]):
+        return f"{what}: the results of two calls share memory", None
+    _spoil(r2[1])
+    if _freeze(r1[1]) != f1:
+        return f"{what}: changing the result of the second call changed the result of the first call", None
+    if [value_of(d) for d in members] != before:
+        return f"{what}: changing the returned result changed the collection", None
+    r3 = _try(lambda: fn(coll))
+    if r3[0] != "ok" or _freeze(r3[1]) != f1:
+        return f"{what}: a third call after the caller changed an earlier result differs from the first call", None
+    _ocount(f"query_twice_and_kept:{kind}.{name}")
+    return None, (what, r1[1], f1, lambda: fn(coll))
+
+
+HEAVY_BUDGET = [6]      # reset by check(): bounds the cost of numerically integrated volumes (0.3 s each)
+
+
+def check_queries(w, rng, budget=None):
     """summary queries equal their definitions over the members and do not depend on member order"""
     from droplets.emulsions import Emulsion
     fails = []
+    budget = budget if budget is not None else [1]     # emulsions with many-mode PerturbedDroplet3D members examined
+    deep = set(rng.sample(range(len(w.E)), min(2, len(w.E))))     # emulsions examined against a fresh twin
     for ci, e in enumerate(w.E):
         members = list(e)
         p3 = [d for d in members if type(d).__name__ == "PerturbedDroplet3D"]
-        if p3 and rng.random() < (0.8 if all(len(np.atleast_1d(d.data["amplitudes"])) <= 1 for d in p3) else 0.97):
-            continue  # numerical volume integration (0.3 s per droplet with 3 or 8 modes): only a sample of these
+        if p3:   # numerical volume integration (0.3 s per droplet with 3 or 8 modes): only a bounded sample of these
+            heavy = not all(len(np.atleast_1d(d.data["amplitudes"])) <= 1 for d in p3)
+            if rng.random() < (0.9 if heavy else 0.8) or (heavy and (budget[0] <= 0 or len(p3) > 2)):
+                continue
+            if heavy:
+                budget[0] -= 1
         perm = list(members)
         rng.shuffle(perm)
         pe = Emulsion(perm, copy=False)                 # same droplets in another order (read only)
@@ -1933,6 +2109,37 @@ def check_queries(w, rng):
                 arr[1]["radius"] += 1.0
                 if [value_of(d) for d in members] != before:
                     fails.append(f"E[{ci}].data is not a copy: writing to it changed the members")
+        # state kept between calls: a collection that has been through a history answers like a FRESH collection of
+        # equal droplets (bit-identical), also after every single attribute change (set through the property setter
+        # and through the record, alternately), and again after the change is undone
+        fresh = _try(lambda: Emulsion([make_droplet(value_of(d)) for d in members]))
+        if fresh[0] == "ok" and not p3 and ci in deep:      # (volumes of PerturbedDroplet3D are numerical integrals: too slow here)
+            def answers(x):
+                return _freeze([_try(lambda: x.get_size_statistics()), _try(lambda: x.total_droplet_volume),
+                                _try(lambda: x.interface_width),
+                                _try(lambda: (x.bbox.pos, x.bbox.size)) if len(x) else None])
+            a0 = answers(e)
+            _ocount("fresh_twin_compared:emulsions")
+            _ocount(f"fresh_twin_compared:requery_after_single_change:{min(len(members), 2)}")
+            if a0 != answers(fresh[1]):
+                fails.append(f"E[{ci}]: summary queries differ from those of a fresh emulsion of equal droplets")
+            if answers(e) != a0:
+                fails.append(f"E[{ci}]: summary queries called twice give different results")
+            for j in range(min(len(members), 2)):
+                d, fd = members[j], fresh[1][j]
+                r0 = float(d.data["radius"])
+                if (ci + j) % 2 and _try(lambda: setattr(d, "radius", r0 + 0.5))[0] == "ok":
+                    pass
+                else:
+                    d.data["radius"] = r0 + 0.5
+                fd.radius = r0 + 0.5
+                if answers(e) != answers(fresh[1]):
+                    fails.append(f"E[{ci}]: after changing the radius of member {j} the summary queries differ from "
+                                 "those of a fresh emulsion of equal droplets (stale state)")
+                d.data["radius"] = r0
+                fd.radius = r0
+            if answers(e) != a0:
+                fails.append(f"E[{ci}]: after undoing the changes the summary queries differ from the first answers")
         if members:
             if e[-1] is not members[-1] or e[-len(members)] is not members[0] or e[np.int64(0)] is not members[0]:
                 fails.append(f"E[{ci}][-1] / E[{ci}][-len] / E[{ci}][numpy.int64(0)] are not the last / first member")
@@ -2009,6 +2216,8 @@ def oracle_run(ops, rng=None, queries=True):
     Returns None or a description of the first failure."""
     rng = rng or random.Random(0)
     w, m = World(), RefModel()
+    kept = []            # (description, live result object, frozen image at the time of the call)
+    budget = HEAVY_BUDGET   # per check run: emulsions with many-mode PerturbedDroplet3D members given to the queries
     for step, op in enumerate(ops):
         n = op[0]
         if not _is_default(op):
@@ -2085,8 +2294,21 @@ def oracle_run(ops, rng=None, queries=True):
                 if diff != [pi]:
                     return (f"{where}: changing the radius of the droplet at position {pi} changed positions {diff} "
                             f"(positions: handles, then members of E[0], E[1], ..., then tracks)")
+        # results of earlier queries that the caller kept alive must not change retroactively
+        if kept:
+            _ocount(f"kept_results_reexamined_after_operation:{min(len(kept), 8)}")
+            _try(rng.choice(kept)[3])       # the same query again, now on the changed collection (buffer reuse?)
+        for what, live, frozen, _again in kept:
+            if _freeze(live) != frozen:
+                return f"{where}: the result of {what}, obtained earlier and kept by the caller, changed retroactively"
+        if queries and len(kept) < 8 and rng.random() < 0.12:
+            kf, entry = keep_result(w, rng)
+            if kf:
+                return f"{where}: {kf}"
+            if entry:
+                kept.append(entry)
         if queries and (step == len(ops) - 1 or rng.random() < 0.15):
-            qf = check_queries(w, rng)
+            qf = check_queries(w, rng, budget)
             if qf:
                 return f"{where}: {qf[0]}"
     return None
@@ -2315,8 +2537,21 @@ def _book(ctx, done, obs, kind):
     ctx.count("sequence_length", len(done))
     where = {}           # handle -> collections it was inserted into
     tvk = []             # kind of every caller-held sequence of times
+    prev_target, prev_oc = {}, "Ok"
     for o, (oc, _) in zip(done, obs):
         n = o[0]
+        # state between calls: the previous operation failed; the previous operation on a collection of the same
+        # type went to ANOTHER collection (interleaving of independent collections)
+        ctx.count("after_failing_call", prev_oc != "Ok")
+        prev_oc = oc
+        for kind, names in World._TARGET.items():
+            if n in names and isinstance(o[1], int):
+                if kind in prev_target:
+                    ctx.count("interleaving", f"{kind}:{'other_collection' if prev_target[kind] != o[1] else 'same_collection'}")
+                prev_target[kind] = o[1]
+        if n in ("Extend", "TcNew", "TrNew"):
+            it = (o[5] if len(o) > 5 else "list") if n == "Extend" else (o[3] if len(o) > 3 else "list")
+            ctx.count("argument_iterable", f"{n}:{it}")
         if n == "TlistNew" and oc == "Ok":
             tvk.append(o[2] if len(o) > 2 else "list")
         if n in ("TcNewL", "TrNewL", "TlistSet", "TlistAppend"):
@@ -2379,6 +2614,39 @@ def _book(ctx, done, obs, kind):
             ctx.count("ctor_members", min(len(o[1]), 3))
 
 
+def _fresh_fails(history, ops):
+    """Run the sequences of `history` and then `ops` through the oracle in a FRESH interpreter (no module-level or
+    class-level state left by the earlier sequences of this run).  Returns the failure text, "" when it passes, None
+    when the interpreter could not be run."""
+    import os
+    import subprocess
+    import sys
+    code = ("import json, random, sys\n"
+            "sys.path.insert(0, %r)\n"
+            "import C20\n"
+            "job = json.loads(sys.stdin.read())\n"
+            "for h in job['history']:\n"
+            "    try:\n"
+            "        C20.oracle_run(C20.ops_from_json(h), random.Random(0))\n"
+            "    except Exception:\n"
+            "        pass\n"
+            "try:\n"
+            "    r = C20.oracle_run(C20.ops_from_json(job['ops']), random.Random(0))\n"
+            "except Exception as ex:\n"
+            "    r = 'oracle crashed: %%s: %%s' %% (type(ex).__name__, ex)\n"
+            "print('RESULT ' + json.dumps(r or ''))\n") % os.path.dirname(os.path.abspath(__file__))
+    try:
+        p = subprocess.run([sys.executable, "-c", code], input=json.dumps(
+            {"history": [ops_to_json(h) for h in history], "ops": ops_to_json(ops)}),
+            capture_output=True, text=True, timeout=300)
+        for line in p.stdout.splitlines():
+            if line.startswith("RESULT "):
+                return json.loads(line[7:])
+    except Exception:  # noqa
+        pass
+    return None
+
+
 def _oracle_violation(ctx, ops, why, seen):
     """shrink a failing oracle input and record it"""
     def fails(cand):
@@ -2395,8 +2663,24 @@ def _oracle_violation(ctx, ops, why, seen):
     if key in seen:
         return
     seen.add(key)
-    ctx.violations.append({"what": msg, "input": {"ops": ops_to_json(small)}, "found": True,
-                           "broken": ctx.broken[:3]})
+    # the failure may depend on state that earlier sequences of this run left in the process (class attributes,
+    # module-level caches): make the stored input self-contained for a fresh interpreter
+    full = [o for o in ops if _is_default(o)]
+    inp = {"ops": ops_to_json(small)}
+    if not _fresh_fails([], small):
+        r1 = _fresh_fails([], full)
+        r2 = None if r1 else _fresh_fails([full], full)
+        if r1:
+            inp, msg = {"ops": ops_to_json(full), "note": "state kept between calls: the shortened sequence fails only "
+                        "after earlier sequences of the run; this unshortened one fails in a fresh interpreter"}, r1
+        elif r2:
+            inp, msg = {"history": [ops_to_json(full)], "ops": ops_to_json(full),
+                        "note": "state kept between calls: fails when the same sequence has been run before in the "
+                                "process"}, r2
+        else:
+            inp["note"] = ("state kept between calls: reproduced only after the earlier sequences of the run, not in a "
+                           "fresh interpreter; rerun ./check to reproduce")
+    ctx.violations.append({"what": msg, "input": inp, "found": True, "broken": ctx.broken[:3]})
 
 
 def check(ctx: vlib.Ctx) -> int:
@@ -2491,6 +2775,29 @@ def check(ctx: vlib.Ctx) -> int:
             suspicious += [dones[i] for i in bad[:40]]
         ctx.extra["layout_matrix"] = {"layouts": len(names), "paths": len(LAYOUT_PATHS), "cases": len(cases)}
     lap("layout_matrix")
+    # ---- (b5) twins: two independent collections of each type, of two layouts, used alternately (state between calls)
+    if ok:
+        names = [n_ for n_, _ in LAYOUTS]
+        fam = {n_: RefModel._dtype(v)[0] for n_, v in LAYOUTS}
+        pairs = [(a, b_) for a in names for b_ in names
+                 if not ctx.quick or (fam[a] == fam[b_]) or (a, b_) in LAYOUT_CORE or rng.random() < 0.2]
+        cases, dones = [], []
+        for a, b_ in pairs:
+            # outcome of every step, contents and aliasing signature after the last one (nothing is ever deleted from
+            # the world, so the final dump shows every collection)
+            done, obs, w = run_sequence(twin_case(a, b_, rng), dump_every=False)
+            cases.append(caselit(done, obs))
+            dones.append(done)
+            _book(ctx, done, obs, "twins")
+            _book_sizes(ctx, w)
+            ctx.count("twin_layouts", "same_fields_and_class_family" if fam[a] == fam[b_] else "different_family")
+        bad = vlib.run_cases(ctx, "twn", HEADER, cases, "agree", shard=max(8, len(cases) // 16 + 1), timeout=900)
+        if bad:
+            ctx.broken.append(f"correspondence (twin collections): model and implementation differ on {len(bad)} of "
+                              f"{len(cases)} cases, first: {pairs[bad[0]]}")
+            suspicious += [dones[i] for i in bad[:40]]
+        ctx.extra["twins"] = {"cases": len(cases), "operations_per_case": len(twin_case("S2", "S3", random.Random(0)))}
+    lap("twins")
     # ---- (b4) the slice matrix: every general slice key on four-member collections of all three types
     if ok:
         hdr, ds0, out = slice_matrix(rng, 0.4 if ctx.quick else 1.0)
@@ -2527,6 +2834,7 @@ def check(ctx: vlib.Ctx) -> int:
     lap("random")
     # ---- (c) property oracle: corpus, a stream of default-settings sequences, and (when something is broken)
     #      the sequences on which model and implementation disagree plus a larger stream
+    HEAVY_BUDGET[0] = ctx.scale(6, 40)
     orng = random.Random(ctx.seed + 1)
     todo = [list(c) for c in CORPUS]
     todo += [PREFIX + [ALPHABET[a], ALPHABET[b_]] for a in range(len(ALPHABET)) for b_ in range(len(ALPHABET))
@@ -2536,6 +2844,7 @@ def check(ctx: vlib.Ctx) -> int:
     todo += [SLICE_PREFIX + [(nm, 0) + key for nm in ("SliceG", "TcSliceG", "TrSliceG")]
              for key in ((None, None, 2), (None, None, -2), (1, None, 3), (-1, None, -3), (-5, 5, 2), (3, 0, -1))]
     lrng = random.Random(ctx.seed + 2)
+    todo += [twin_case(a, b_, lrng) for a, b_ in LAYOUT_CORE]
     todo += [layout_case(a, b_, path, True, fc, lrng) for a, b_ in LAYOUT_CORE for path in LAYOUT_PATHS
              for fc in (True, False)]
     nstream = ctx.scale(100, 600) if not ctx.broken else ctx.scale(300, 900)
@@ -2578,6 +2887,9 @@ def check(ctx: vlib.Ctx) -> int:
         ctx.violations.append({"what": r, "input": {"probe": "long_history_probe", "appends": 1203}, "found": True,
                                "broken": ctx.broken[:3]})
     lap("oracle")
+    for k_, v_ in sorted(ORACLE_COUNTS.items()):
+        ctx.count("state_between_calls", k_, v_)
+    ORACLE_COUNTS.clear()
     # ---- observations outside the judged property: run, named, counted, not judged
     for name, fn, reason in OBSERVED_OUTSIDE_PROPERTY:
         try:
@@ -2629,6 +2941,11 @@ def replay(path: str) -> int:
         print("no operation sequence stored (obligation / correspondence failure without failing input)")
         return 1
     ops = ops_from_json(inp["ops"])
+    for h in inp.get("history", []):          # sequences to be run before, in the same process
+        try:
+            oracle_run(ops_from_json(h), random.Random(0))
+        except Exception:  # noqa
+            pass
     why = oracle_run(ops, random.Random(0))
     print("oracle on current tree:", why or "passes")
     done, obs, w = run_sequence(ops)
